@@ -133,8 +133,59 @@ fn judge_cli(c: &CliCase, cls: &mut Classifier) -> Verdict {
     Ok(())
 }
 
+/// Messages related to one another (same length with other bytes, one bit flipped, one byte shorter / longer, a
+/// text and its bytes with the top bit set) digested one after the other on one thread, the first one again at
+/// the end: the digest of a message may not depend on what was digested before.
+#[derive(Clone, Debug, Serialize, Deserialize)]
+pub struct HistCase {
+    pub steps: Vec<Case>,
+}
+
+fn gen_history(tape: Vec<u8>) -> HistCase {
+    let mut u = crate::gen::U::new(&tape);
+    let len = match u.below(8) {
+        0 => [1usize, 9, 10, 99, 100, 999, 1000, 9999, 10_000][u.below(9)],
+        1 => [31usize, 32, 55, 56, 64, 135, 136, 137, 8192][u.below(9)],
+        _ => 1 + u.below(300),
+    };
+    let m = u.bytes(len);
+    let mut steps = vec![m.clone()];
+    for _ in 0..2 + u.below(3) {
+        let mut x = m.clone();
+        match u.below(6) {
+            0 => x = u.bytes(len),
+            1 => {
+                let i = u.below(len);
+                x[i] ^= 1 << u.below(8);
+            }
+            2 => {
+                x.pop();
+            }
+            3 => x.push(u.byte()),
+            4 => x.iter_mut().for_each(|b| *b |= 0x80),
+            _ => x.reverse(),
+        }
+        steps.push(x);
+    }
+    steps.push(m);
+    HistCase { steps: steps.iter().map(|m| Case::of(m)).collect() }
+}
+
+fn judge_history(c: &HistCase, cls: &mut Classifier) -> Verdict {
+    let mut scratch = Classifier::default();
+    for (i, s) in c.steps.iter().enumerate() {
+        judge(s, &mut scratch).map_err(|mut e| {
+            e.note = format!("step {i} of a history of {} related messages digested one after the other on one thread: {}", c.steps.len(), e.note);
+            e
+        })?;
+    }
+    cls.label("history");
+    cls.nontrivial(&c.steps.iter().map(|s| s.msg_hex.clone()).collect::<Vec<_>>());
+    Ok(())
+}
+
 pub fn run(ctx: &mut Ctx) {
-    ctx.rule = "byte strings: every length 0..=1100 (seeded random content, first byte forced through all 256 values and ASCII digits), lengths 10^k-1,10^k,10^k+1 (k=1..6 quick, 1..7 thorough), special contents (NUL, newline, invalid UTF-8, digits only) and proptest-generated strings; oracle: keccak(0x19 'Ethereum Signed Message:\\n' dec(len) m) via sha3 with own decimal loop, for Vec<u8>, &[u8] and String carriers; CLI sample: `hash message` prints that digest and the `sign message` signature recovers to the reference-derived signer over it (file and stdin; non-UTF-8 and trailing-newline contents, and a table of contents that look like another encoding or carry a marker: byte-order marks, hex/JSON/base64/escape look-alikes, white-space framing, option-like text, NULs). Non-trivial: message differs from the pinned 12-byte unit-test message; distinct by content.".into();
+    ctx.rule = "byte strings: every length 0..=1100 (seeded random content, first byte forced through all 256 values and ASCII digits), lengths 10^k-1,10^k,10^k+1 (k=1..6 quick, 1..7 thorough), special contents (NUL, newline, invalid UTF-8, digits only) and proptest-generated strings; oracle: keccak(0x19 'Ethereum Signed Message:\\n' dec(len) m) via sha3 with own decimal loop, for Vec<u8>, &[u8] and String carriers; CLI sample: `hash message` prints that digest and the `sign message` signature recovers to the reference-derived signer over it (file and stdin; non-UTF-8 and trailing-newline contents, and a table of contents that look like another encoding or carry a marker: byte-order marks, hex/JSON/base64/escape look-alikes, white-space framing, option-like text, NULs). Histories: a message, 2-4 relatives (same length with other bytes, one bit flipped, one byte shorter/longer, top bits set, reversed) and the first one again, digested one after the other on one thread. Non-trivial: message differs from the pinned 12-byte unit-test message; distinct by content.".into();
     ctx.assumptions = vec!["sha3::Keccak256 is a correct Keccak-256".into()];
     ctx.replay_known_and_regressions(&replay);
 
@@ -190,6 +241,7 @@ pub fn run(ctx: &mut Ctx) {
         },
         judge,
     );
+    ctx.run_prop("history", ctx.tier.pick(4000, 60_000), || crate::gen::tape(12_000).prop_map(gen_history), judge_history);
     // CLI sample: the digest that `hash message` prints and `sign message` signs
     if crate::cli::global_cli().is_some() {
         let mut p = Prng::new(ctx.sub_seed("cli", 0));
@@ -241,6 +293,7 @@ pub fn replay(sub: &str, case: &Value) -> Option<Verdict> {
     match sub {
         "sweep" | "pow10" | "random" => Some(replay_as::<Case>(case, judge)),
         "cli-message" => Some(replay_as::<CliCase>(case, judge_cli)),
+        "history" => Some(replay_as::<HistCase>(case, judge_history)),
         _ => None,
     }
 }
